@@ -790,6 +790,39 @@ func (w *World) batchBytes(builds int) error {
 		if err := drop(an); err != nil {
 			return err
 		}
+		// byte slice -> byte array (single-slab fast path and batch path), bytes of both CBOR widths mixed
+		{
+			L := []int{1, 2, 5, 9, 30, 70}[r.Intn(6)]
+			data := make([]byte, L)
+			for i := range data {
+				switch r.Intn(3) {
+				case 0:
+					data[i] = byte(r.Intn(24))
+				case 1:
+					data[i] = byte(24 + r.Intn(232))
+				default:
+					data[i] = byte(r.Intn(256))
+				}
+			}
+			est := uint32([]int{0, 1, 3, 4}[r.Intn(4)])
+			ti := w.newTI(false)
+			barr, err := atree.ByteSliceToByteArray[tu.Uint8Value](w.st, w.addr, ti, data, est)
+			if err != nil {
+				return viol("bytes-conv", "ByteSliceToByteArray(length %d, estimate %d) failed: %v", L, est, err)
+			}
+			w.nextNID++
+			bn := &Node{Kind: KArr, TI: ti, Arr: barr, VID: barr.ValueID(), Addr: w.addr, nid: w.nextNID}
+			for _, b := range data {
+				bn.Elems = append(bn.Elems, &Node{Kind: KU8, U: uint64(b)})
+			}
+			if err := check(bn); err != nil {
+				return err
+			}
+			w.stats.Extra["bytes-converted-arrays"]++
+			if err := drop(bn); err != nil {
+				return err
+			}
+		}
 		// map through a source map
 		saveTrace := w.traceOn
 		w.traceOn = false
